@@ -225,8 +225,10 @@ def corpus_histories():
 def check(run):
     run.snapshot()
     info = tr_cfglife(run)
+    from vlib import sysmodel
+    sysmodel.translate_all(run)
     with ThreadPoolExecutor(2) as ex:
-        fp = ex.submit(run.coq_props, ["Properties_C11.v"])
+        fp = ex.submit(run.coq_props, ["Properties_C11.v", "Properties_C11sys.v"])
         fb = ex.submit(build_both, run)
         libs = fb.result()
         ok, failed, log = fp.result()
@@ -276,8 +278,6 @@ def check(run):
     #      the file is rewritten between the calls of one process; both builds
     nsys = 0
     try:
-        from vlib import sysmodel
-        sysmodel.translate_all(run)
         sexe = sysmodel.build_model(run)
         for v in ("ts", "nts"):
             n1, _ = sysmodel.whole_run_stream(run, libs[v], sexe, 8 if run.tier == "quick" else 120, 6, run.violation, tag="c11m-" + v, rewrite=True, sigprefix="model-hist:" + v)
